@@ -2,31 +2,11 @@
   C16 — helper lemmas for NutsProofs/Props/C16.lean (core Lean only).
 -/
 import NutsModel.C16.Discovery
+import NutsModel.C16.Spec
 
 namespace Nuts.C16
 
 /-! ### the registration predicate of the property text -/
-
-/-- a row's columns are what `storePresentation` reads off the presentation -/
-def RowWF (r : Row) : Prop :=
-  (∃ m, r.vp.signer = some (r.subject, m)) ∧ r.vp.id = some r.id ∧ r.vp.exp = some r.exp ∧ r.vp.jwt = true
-
-/-- What the property demands of a listed presentation, relative to the list `s` and the clock `now` at which it was
-    offered: a JWT presentation with an id, addressed to the service, expiring within the maximum validity, signed by a
-    DID of an allowed method, verifiable; a registration does not outlive its credentials and its credentials all and
-    only fulfil the definition; a retraction carries no credentials and names an entry of the same signer. -/
-structure Acceptable (d : Def) (side : Side) (s : Store) (now : Nat) (vp : VP) (subj : String) (e : Nat) : Prop where
-  jwt : vp.jwt = true
-  hasId : ∃ i, vp.id = some i
-  addressed : d.id ∈ vp.aud
-  exp : vp.exp = some e
-  within : e ≤ now + d.maxValidity
-  signer : ∃ m, vp.signer = some (subj, m) ∧ (d.didMethods = [] ∨ m ∈ d.didMethods)
-  verifiable : vp.verdict side = true
-  registration : vp.retraction = false →
-    (∀ c ∈ vp.creds, ∀ ce, c.exp = some ce → e ≤ ce) ∧ vp.pex = .matched vp.creds.length
-  retraction : vp.retraction = true →
-    vp.creds = [] ∧ ∃ j, vp.retractJti = some j ∧ j ≠ "" ∧ ∃ r ∈ s.rows, r.subject = subj ∧ r.id = j
 
 theorem hasKey_iff (s : Store) (subj id : String) :
     s.hasKey subj id = true ↔ ∃ r ∈ s.rows, r.subject = subj ∧ r.id = id := by
@@ -212,14 +192,6 @@ theorem register_cases (d : Def) (s : Store) (now fresh : Nat) (vp : VP) :
 
 /-! ### invariant of a list that hands out its own timestamps (the server) -/
 
-structure SInv (s : Store) : Prop where
-  sorted : s.rows.Pairwise (fun a b => a.ts < b.ts)
-  bound : ∀ r ∈ s.rows, 1 ≤ r.ts ∧ r.ts ≤ s.lastTs
-  onePer : s.rows.Pairwise (fun a b => a.subject ≠ b.subject)
-  seed0 : s.seed = 0 → s.lastTs = 0 ∧ s.rows = []
-  seedPos : s.seed ≠ 0 → 1 ≤ s.lastTs ∧ s.rows ≠ []
-  wf : ∀ r ∈ s.rows, RowWF r
-
 theorem sinv_empty : SInv {} where
   sorted := List.Pairwise.nil
   bound := by intro r h; cases h
@@ -297,11 +269,6 @@ theorem sinv_setValidated {s : Store} (pk : Nat) (h : SInv s) : SInv (s.setValid
 
 /-! ### the server side of a world -/
 
-/-- `r` was accepted at some earlier moment: the registration predicate held of its presentation, against the
-    (well-formed) list `s` of that moment -/
-def Listed (d : Def) (t : Nat) (r : Row) : Prop :=
-  ∃ s now, now ≤ t ∧ SInv s ∧ Acceptable d .server s now r.vp r.subject r.exp
-
 theorem Listed.mono {d : Def} {t t' : Nat} {r : Row} (h : Listed d t r) (ht : t ≤ t') : Listed d t' r := by
   obtain ⟨s, now, h1, h2, h3⟩ := h
   exact ⟨s, now, by omega, h2, h3⟩
@@ -367,10 +334,6 @@ theorem serverOK_run (cfg : Cfg) (d : Def) (evs : List Ev) (w : World) (h : Serv
 
 
 /-! ### the client loop as an iteration -/
-
-/-- the presentation has what `updateService` / `storePresentation` dereference -/
-def VPWF (vp : VP) (subj id : String) (e : Nat) : Prop :=
-  (∃ m, vp.signer = some (subj, m)) ∧ vp.id = some id ∧ vp.exp = some e ∧ vp.jwt = true
 
 theorem RowWF.vpwf {r : Row} (h : RowWF r) : VPWF r.vp r.subject r.id r.exp := h
 
@@ -455,10 +418,6 @@ def J2 (S C : Store) (t τ : Nat) : Prop :=
 /-- every live client row is listed by the server, or its subject has a newer entry (above `τ`) that does not expire earlier -/
 def J3 (S C : Store) (t τ : Nat) : Prop :=
   ∀ c ∈ C.rows, t < c.exp → keyIn S.rows c.subject c.id ∨ ∃ r ∈ S.rows, r.subject = c.subject ∧ τ < r.ts ∧ c.exp ≤ r.exp
-
-/-- a presentation id names one presentation per signer (jti uniqueness) among the presentations `K` that are ever offered -/
-def IdFun (K : VP → Prop) : Prop :=
-  ∀ a b, K a → K b → ∀ s ma mb, a.signer = some (s, ma) → b.signer = some (s, mb) → a.id = b.id → a = b
 
 theorem pairwise_subject_inj {l : List Row} (h : l.Pairwise (fun a b => a.subject ≠ b.subject)) {a b : Row}
     (ha : a ∈ l) (hb : b ∈ l) (hs : a.subject = b.subject) : a = b := by
@@ -825,12 +784,6 @@ theorem winv_validate {K : VP → Prop} (cfg : Cfg) (d : Def) (w : World) (h : W
     fun hs => let q := h.sync hs; ⟨q.1, q.2.1, q.2.2⟩⟩
 
 
-/-- a subject's accepted registration does not expire before the entry it replaces (what a node's own refresh does:
-    `exp = now + maxValidity − 1` with a clock that does not run backwards) -/
-def ExpMono (d : Def) (w : World) (vp : VP) : Prop :=
-  (register d w.S w.t (w.ctr + 1) vp).2 = .ok () →
-    ∀ subj m e, vp.signer = some (subj, m) → vp.exp = some e → ∀ r ∈ w.S.rows, r.subject = subj → r.exp ≤ e
-
 theorem winv_register {K : VP → Prop} (hK : IdFun K) (cfg : Cfg) (d : Def) (w : World) (vp : VP)
     (hkv : K vp) (hmono : ExpMono d w vp) (h : WInv K w) :
     WInv K (step cfg d w (.register vp)).1 := by
@@ -1009,18 +962,6 @@ theorem winv_pollB {K : VP → Prop} (hK : IdFun K) (cfg : Cfg) (hsf : cfg.servi
 
 /-! ### admissible histories -/
 
-/-- side conditions on an event in world `w`: offered presentations come from `K` and respect `ExpMono`; the
-    iteration order of the response map is a permutation -/
-def EvOK (K : VP → Prop) (d : Def) (w : World) : Ev → Prop
-  | .register vp => K vp ∧ ExpMono d w vp
-  | .pollB perm => ∀ l, (perm l).Perm l
-  | _ => True
-
-/-- worlds reachable from two empty nodes by any admissible history -/
-inductive Reach (cfg : Cfg) (d : Def) (K : VP → Prop) : World → Prop where
-  | init (t : Nat) : Reach cfg d K { t := t }
-  | step (w : World) (e : Ev) : Reach cfg d K w → EvOK K d w e → Reach cfg d K (step cfg d w e).1
-
 theorem winv_step {K : VP → Prop} (hK : IdFun K) (cfg : Cfg) (hsf : cfg.serviceFirst = true) (hrw : cfg.restartOnWipe = true)
     (d : Def) (w : World) (e : Ev) (he : EvOK K d w e) (h : WInv K w) : WInv K (step cfg d w e).1 := by
   cases e with
@@ -1038,9 +979,6 @@ theorem winv_reach {K : VP → Prop} (hK : IdFun K) (cfg : Cfg) (hsf : cfg.servi
   | step w e _ he ih => exact winv_step hK cfg hsf hrw d w e he ih
 
 /-! ### convergence -/
-
-/-- the live sets agree: same (subject, id) keys among the rows that have not expired at `t` -/
-def LiveEq (S C : Store) (t : Nat) : Prop := ∀ k, k ∈ S.liveKeys t ↔ k ∈ C.liveKeys t
 
 theorem mem_liveKeys {s : Store} {t : Nat} {k : String × String} :
     k ∈ s.liveKeys t ↔ ∃ r ∈ s.rows, t < r.exp ∧ r.subject = k.1 ∧ r.id = k.2 := by
@@ -1205,9 +1143,6 @@ theorem clientLoop_all_present (d : Def) (now seed ts : Nat) (c : Store) (ctr : 
 
 /-! ### search returns only what the client verified itself -/
 
-/-- the client's own `verifyRegistration` accepted this presentation at some earlier clock value -/
-def ClientVerified (d : Def) (t : Nat) (vp : VP) : Prop := ∃ s now, now ≤ t ∧ verify d s now .client vp = .ok ()
-
 structure CV (d : Def) (t : Nat) (c : Store) : Prop where
   rowsLt : ∀ r ∈ c.rows, r.pk < c.nextPk
   valLt : ∀ pk ∈ c.validated, pk < c.nextPk
@@ -1337,11 +1272,6 @@ theorem cv_validate {d : Def} {t : Nat} {c : Store} (h : CV d t c) : CV d t (cli
       | panic p => rw [hvv] at hok; cases hok
     · exact h.ver r hr (by show c.validated.contains r.pk = true; simpa using h1)
 
-
-/-- the Go map iteration order of a `pollB` event is a permutation of the response -/
-def PermOK : Ev → Prop
-  | .pollB perm => ∀ l, (perm l).Perm l
-  | _ => True
 
 structure SrchInv (d : Def) (w : World) : Prop where
   srv : ServerOK d w
